@@ -288,6 +288,55 @@ def render_conc(facts):
     return "\n".join(out) + "\n"
 
 
+def visitor_body(text, fn):
+    return fn_body(text, r"fn %s\(" % fn) or ""
+
+
+def scrape_own():
+    """OwnFacts.v: the ownership idiom each visitor emits for object arguments (C05)."""
+    facts, problems = {}, []
+    c_impl = read("idlc_codegen_c/src/interface/functions/implementation.rs")
+    c_inv = read("idlc_codegen_c/src/interface/functions/invoke.rs")
+    cpp_impl = read("idlc_codegen_cpp/src/interface/functions/implementation.rs")
+    cpp_inv = read("idlc_codegen_cpp/src/interface/functions/invoke.rs")
+    rs_impl = read("idlc_codegen_rust/src/interface/functions/implementation.rs")
+    rs_inv = read("idlc_codegen_rust/src/interface/functions/invoke.rs")
+    objfns = ("visit_input_object", "visit_input_object_array", "visit_output_object", "visit_output_object_array")
+    def none_in(text, words):
+        return all(not any(w in visitor_body(text, f) for w in words) for f in objfns)
+    facts["c_stub_no_refcount_ops"] = none_in(c_impl, ("retain", "release"))
+    facts["c_skel_no_refcount_ops"] = none_in(c_inv, ("retain", "release"))
+    b = visitor_body(cpp_impl, "visit_input_object")
+    facts["cpp_stub_in_borrows"] = ".get()" in b and "retain" not in b
+    b = visitor_body(cpp_impl, "visit_output_object")
+    facts["cpp_stub_out_consumes"] = ".consume(" in b
+    b = visitor_body(cpp_inv, "visit_input_object")
+    facts["cpp_skel_in_adopts_then_extracts"] = bool(re.search(r"p_\{ident\}\(\{ARGS\}\[\{idx\}\]\.o\)", b)) and "p_{ident}.extract()" in b
+    b = visitor_body(cpp_inv, "visit_output_object")
+    facts["cpp_skel_out_extracts"] = bool(re.search(r"\{ARGS\}\[\{idx\}\]\.o = p_\{ident\}\.extract\(\)", b))
+    b = visitor_body(rs_impl, "visit_input_object")
+    facts["rust_stub_in_manually_drop"] = "ManuallyDrop::new(" in b and "transmute_copy" in b
+    b = visitor_body(rs_impl, "visit_output_object")
+    facts["rust_stub_out_takes"] = "ManuallyDrop::take(" in b
+    b = visitor_body(rs_inv, "visit_input_object")
+    facts["rust_skel_in_borrows"] = ".o.as_ref()" in b and "ManuallyDrop::take" not in b
+    b = visitor_body(rs_inv, "visit_output_object")
+    facts["rust_skel_out_moves"] = "ManuallyDrop::new(std::mem::transmute({ident}))" in b
+    pb = re.sub(r"//.*", "", read("tests/cpp/proxy_base.hpp"))
+    m = re.search(r"void consume\(.*?\{(.*?)\n  \}", pb, re.S)
+    cb = m.group(1) if m else ""
+    facts["cpp_consume_skips_same_object"] = bool(re.search(r"if \(me_\.invoke != rhs\.invoke \|\| me_\.context != rhs\.context\)", cb)) and "else" not in cb
+    return facts, problems
+
+
+def render_own(facts):
+    out = ["(* GENERATED by lib/translate.py: ownership idioms of the object visitors (C, C++, Rust emitters) and of ProxyBase::consume. *)",
+           "Require Import Base.", ""]
+    for k in sorted(facts):
+        out.append("Definition %s : bool := %s." % (k, "true" if facts[k] else "false"))
+    return "\n".join(out) + "\n"
+
+
 def ptable(name, tbl):
     arms = " ".join("| %s => %d" % (COQP[p], tbl[p]) for p in PRIMS)
     return "Definition %s (p : prim) : N := match p with %s end.\n" % (name, arms)
@@ -333,6 +382,11 @@ def main(outdir, probe=None):
     F.items["driver"] = df
     if not dproblems:
         write_if_changed(os.path.join(outdir, "DriverFacts.v"), render_driver(df))
+    of, oproblems = scrape_own()
+    F.problems += oproblems
+    F.items["own"] = of
+    if not oproblems:
+        write_if_changed(os.path.join(outdir, "OwnFacts.v"), render_own(of))
     cf, cproblems = scrape_conc()
     F.problems += cproblems
     F.items["conc"] = cf
